@@ -31,6 +31,15 @@ def unary_variants(s):
     return []
 
 
+CTX_TAILS = ("ctxc", "ctxd")
+
+
+def gen_a(ctx, ctx_tails=False):
+    """Scenarios of the design check; the tails at which the call's context ends belong to C15."""
+    allsc = core.generate(ctx, "Gen_Frames", "Gen_Frames_A.cfg", tag="genA")["scenarios"]
+    return [r for r in allsc if (r["sc"]["tail"] in CTX_TAILS) == ctx_tails]
+
+
 def sig(prop):
     def f(rj):
         sc = rj["trace"][0]["sc"]
@@ -68,7 +77,7 @@ def run_C03(ctx):
     core.design_check(ctx, "MC_Frames", "MC_Frames.cfg")
     quick = ctx.tier == "quick"
     segs = core.generate(ctx, "Gen_Frames", "Gen_Frames_B.cfg", tag="genB")["scenarios"]
-    allsc = core.generate(ctx, "Gen_Frames", "Gen_Frames_A.cfg", tag="genA")["scenarios"]
+    allsc = gen_a(ctx)
     scen = [flat(r) for r in (core.sample(ctx.rng, segs, 12000) if quick else segs)]
     # unary-shaped APIs over the same segmentations
     for r in core.sample(ctx.rng, segs, 3000 if quick else 20000):
@@ -95,7 +104,7 @@ def run_C03(ctx):
 def run_C04(ctx):
     core.design_check(ctx, "MC_Frames", "MC_Frames.cfg")
     quick = ctx.tier == "quick"
-    allsc = core.generate(ctx, "Gen_Frames", "Gen_Frames_A.cfg", tag="genA")["scenarios"]
+    allsc = gen_a(ctx)
     scen = []
     for r in allsc:
         if r["sc"]["limit"] > 0:
@@ -116,7 +125,7 @@ def run_C04(ctx):
 def run_C09(ctx):
     core.design_check(ctx, "MC_Frames", "MC_Frames.cfg")
     lim = core.generate(ctx, "Gen_Frames", "Gen_Frames_C.cfg", tag="genC")["scenarios"]
-    allsc = [r for r in core.generate(ctx, "Gen_Frames", "Gen_Frames_A.cfg", tag="genA")["scenarios"]
+    allsc = [r for r in gen_a(ctx)
              if r["sc"]["limit"] > 0]
     scen = []
     for r in lim + allsc:
